@@ -224,7 +224,7 @@ def const_cases(tier, seed):
             if c["kind"] == "bitfield":
                 if rules.bitfield_verdict(c)[0] != rules.ACCEPT:
                     continue
-                bad = False
+                bad = "self-overlap" in c.get("tags", [])
                 for f in c["fields"]:
                     pos = catalog.field_positions(f)
                     if "w" in f["access"] and len(set(pos)) != len(pos):
